@@ -147,11 +147,14 @@ def plan(tier):
                         note="top-level lists of <=2 items (depth<=1, fan-out<=1), gap subsets of size<=2"))
     else:
         t1 = trees(Const(LEAVES), KINDS, 1, 4)
-        out.append(dict(kind="space", name="wide-d1w4", space=only_elements(t1), fn=make_fn(5), execs=100,
-                        note="depth<=1 fan-out<=4 full alphabet, ALL gap subsets"))
+        out.append(dict(kind="space", name="wide-d1w4", space=only_elements(t1), fn=make_fn(2), execs=100,
+                        note="depth<=1 fan-out<=4 full alphabet, gap subsets of size<=2"))
+        t1b = trees(Const(LEAVES), KINDS, 1, 3)
+        out.append(dict(kind="space", name="wide-d1w3-all-subsets", space=only_elements(t1b), fn=make_fn(99), execs=100,
+                        note="depth<=1 fan-out<=3 full alphabet, ALL gap subsets"))
         t2 = trees(Const([T("a"), R("<u>r</u>")]), [B, I, Vi], 2, 2)
-        out.append(dict(kind="space", name="square-d2w2-reduced", space=only_elements(t2), fn=make_fn(4), execs=300,
-                        note="depth<=2 fan-out<=2 over {div,span,br}x{text,_repr_html_}, gap subsets of size<=4"))
+        out.append(dict(kind="space", name="square-d2w2-reduced", space=only_elements(t2), fn=make_fn(2), execs=300,
+                        note="depth<=2 fan-out<=2 over {div,span,br}x{text,_repr_html_}, gap subsets of size<=2"))
         t2f = trees(Const(LEAVES), KINDS, 2, 2)
         out.append(dict(kind="space", name="square-d2w2-full", space=only_elements(t2f), fn=make_fn(1), execs=30,
                         note="depth<=2 fan-out<=2 full alphabet, every single gap"))
